@@ -136,14 +136,15 @@ type rcase struct {
 const padding = "<!-- padding padding padding padding padding padding padding padding padding padding padding padding -->\n"
 
 var fixtureFiles = map[string]string{
-	"index.html":      "<html>ROOT-INDEX</html>\n" + padding,
-	"err.html":        "<html>CUSTOM-ERR</html>\n" + padding,
-	"pub/a.html":      "<html>PUB-A[{{.Method}}]</html>\n" + padding,
-	"pub/doc.md":      "# PUB-DOC\n\nsome text some text some text some text some text some text\n",
-	"pub/dir/f.txt":   "PUB-F\n",
-	"secret/s.html":   "<html>SECRET-S[{{.Method}}]</html>\n" + padding,
-	"secret/doc.md":   "# SECRET-DOC\n\nsome text some text some text some text some text some text\n",
-	"secret/idx.html": "<html>SECRET-IDX</html>\n" + padding,
+	"index.html":       "<html>ROOT-INDEX</html>\n" + padding,
+	"err.html":         "<html>CUSTOM-ERR</html>\n" + padding,
+	"pub/a.html":       "<html>PUB-A[{{.Method}}]</html>\n" + padding,
+	"pub/doc.md":       "# PUB-DOC\n\nsome text some text some text some text some text some text\n",
+	"pub/dir/f.txt":    "PUB-F\n",
+	"pub/dir/idx.html": "<html>PUBDIR-IDX</html>\n" + padding,
+	"secret/s.html":    "<html>SECRET-S[{{.Method}}]</html>\n" + padding,
+	"secret/doc.md":    "# SECRET-DOC\n\nsome text some text some text some text some text some text\n",
+	"secret/idx.html":  "<html>SECRET-IDX</html>\n" + padding,
 }
 
 type fixture struct {
@@ -211,6 +212,12 @@ func lineText(id string, fx *fixture, accessLog, errLog string) string {
 		return "root " + fx.root
 	case "idx":
 		return "index idx.html"
+	case "idx2":
+		return "index f.txt"
+	case "tf2":
+		return "tryfiles {path} /index.html"
+	case "rd2":
+		return "redir 302 {\n\t\tif {rewrite_path} starts_with /secret/s\n\t\t/ /landed2\n\t}"
 	case "lg1":
 		return "log / " + accessLog + ` "L1 ` + logFormat + `"`
 	case "lg2":
@@ -489,6 +496,8 @@ func bodyToken(b string) string {
 		return "CUSTOM-ERR"
 	case strings.Contains(b, "ROOT-INDEX"):
 		return "ROOT-INDEX"
+	case strings.Contains(b, "PUBDIR-IDX"):
+		return "PUBDIR-IDX"
 	case strings.Contains(b, "SECRET-IDX"):
 		return "SECRET-IDX"
 	case strings.Contains(b, "PUB-A["):
@@ -511,7 +520,7 @@ func bodyToken(b string) string {
 		return "SECRET-DOC"
 	case strings.HasPrefix(b, "PUB-F"):
 		return "PUB-F"
-	case strings.HasPrefix(b, `<a href="/landed">`):
+	case strings.HasPrefix(b, `<a href="/landed`):
 		return "REDIR"
 	case plainErrRe.MatchString(b):
 		return "plain"
@@ -793,9 +802,9 @@ func (c *checker) confirmPerm(rn *runner, block, order []string, i int, first st
 	}
 	q := c.battery[i]
 	c.res.Add(hx.Mismatch{
-		Key:  fmt.Sprintf("C09/perm/block=%s/order=%s/req=%s/%s", ids(block), ids(order), reqKey(q), d[0]),
-		What: fmt.Sprintf("reordering the lines of a server block changes the answer to %v (%s differs): block %v written as %v", q, strings.Join(d, ", "), block, order),
-		Case: rcase{Clause: "perm", Block: block, Order: order, Req: q, ReqIdx: i},
+		Key:      fmt.Sprintf("C09/perm/block=%s/order=%s/req=%s/%s", ids(block), ids(order), reqKey(q), d[0]),
+		What:     fmt.Sprintf("reordering the lines of a server block changes the answer to %v (%s differs): block %v written as %v", q, strings.Join(d, ", "), block, order),
+		Case:     rcase{Clause: "perm", Block: block, Order: order, Req: q, ReqIdx: i},
 		Expected: map[string]interface{}{"casketfile": portRe.ReplaceAllString(cfa, "127.0.0.1:PORT"), "answer": a[0]},
 		Observed: map[string]interface{}{"casketfile": portRe.ReplaceAllString(cfb, "127.0.0.1:PORT"), "answer": b[0]}})
 	return true
@@ -819,9 +828,9 @@ func (c *checker) confirmModel(rn *runner, block, order []string, i int, exp obs
 		return false
 	}
 	c.res.Add(hx.Mismatch{
-		Key:  fmt.Sprintf("C09/model/block=%s/order=%s/req=%s/%s", ids(block), ids(order), reqKey(q), d[0]),
-		What: fmt.Sprintf("answer to %v is not what the documented directive order yields (%s differs): block %v written as %v", q, strings.Join(d, ", "), block, order),
-		Case: rcase{Clause: "model", Block: block, Order: order, Req: q, ReqIdx: i, Exp: &exp},
+		Key:      fmt.Sprintf("C09/model/block=%s/order=%s/req=%s/%s", ids(block), ids(order), reqKey(q), d[0]),
+		What:     fmt.Sprintf("answer to %v is not what the documented directive order yields (%s differs): block %v written as %v", q, strings.Join(d, ", "), block, order),
+		Case:     rcase{Clause: "model", Block: block, Order: order, Req: q, ReqIdx: i, Exp: &exp},
 		Expected: exp, Observed: map[string]interface{}{"abstract": got, "casketfile": portRe.ReplaceAllString(cf, "127.0.0.1:PORT"), "answer": a[0]}})
 	return true
 }
@@ -903,9 +912,9 @@ func (c *checker) checkPair(rn *runner, tc *tcase) {
 	}
 	q := c.battery[i]
 	c.res.Add(hx.Mismatch{
-		Key:  fmt.Sprintf("C09/pair/%s-before-%s/block=%s/req=%s/%s", row.D1, row.D2, ids(row.Block), reqKey(q), d[0]),
-		What: fmt.Sprintf("%s must act before/around %s: answer to %v with block %v differs from the documented order in %s%s", row.D1, row.D2, q, row.Block, strings.Join(d, ", "), like),
-		Case: rcase{Clause: "pair", Block: row.Block, Order: row.Block, Req: q, ReqIdx: i, Exp: row.Canon, Pair: row.D1 + "<" + row.D2},
+		Key:      fmt.Sprintf("C09/pair/%s-before-%s/block=%s/req=%s/%s", row.D1, row.D2, ids(row.Block), reqKey(q), d[0]),
+		What:     fmt.Sprintf("%s must act before/around %s: answer to %v with block %v differs from the documented order in %s%s", row.D1, row.D2, q, row.Block, strings.Join(d, ", "), like),
+		Case:     rcase{Clause: "pair", Block: row.Block, Order: row.Block, Req: q, ReqIdx: i, Exp: row.Canon, Pair: row.D1 + "<" + row.D2},
 		Expected: row.Canon, Observed: map[string]interface{}{"abstract": got, "casketfile": portRe.ReplaceAllString(cf, "127.0.0.1:PORT"), "answer": a[0]}})
 }
 
@@ -915,6 +924,12 @@ func (c *checker) checkPair(rn *runner, tc *tcase) {
 // directive matter here.
 func lineDir(id string) string {
 	switch id {
+	case "idx", "idx2":
+		return "index"
+	case "tf", "tf2":
+		return "tryfiles"
+	case "rd", "rd2":
+		return "redir"
 	case "lg1", "lg2":
 		return "log"
 	case "rw1", "rw2":
@@ -973,10 +988,11 @@ func TestC09(t *testing.T) {
 	defer res.Write(t)
 
 	// every instance makes certmagic log two lines through a logger bound to fd 2 at init time,
-	// and a gzip site gets a default errors handler that logs to stderr: point fd 2 at /dev/null
-	// while the instances run (VERIF_VERBOSE=1 keeps it, e.g. to see a panic trace)
+	// and a gzip site gets a default errors handler that logs to stderr: point fd 2 at a file in
+	// the scratch directory while the instances run (kept with ./check --keep; a panic trace
+	// ends up there too; VERIF_VERBOSE=1 leaves fd 2 alone)
 	if os.Getenv("VERIF_VERBOSE") == "" {
-		if dn, err := os.OpenFile(os.DevNull, os.O_WRONLY, 0); err == nil {
+		if dn, err := os.Create(filepath.Join(hx.Scratch(t), "c09_stderr.log")); err == nil {
 			if saved, err := syscall.Dup(2); err == nil {
 				syscall.Dup2(int(dn.Fd()), 2)
 				defer func() { syscall.Dup2(saved, 2); syscall.Close(saved); dn.Close() }()
@@ -996,7 +1012,7 @@ func TestC09(t *testing.T) {
 	var pairs []*tcase
 	seen := map[string]bool{}
 	var canon []string
-	hx.EachCase(t, "DirectiveOrder", func(line []byte) error {
+	load := func(line []byte) error {
 		var tc tcase
 		if err := json.Unmarshal(line, &tc); err != nil {
 			return err
@@ -1018,7 +1034,13 @@ func TestC09(t *testing.T) {
 			}
 		}
 		return nil
-	})
+	}
+	hx.EachCase(t, "DirectiveOrder", load)
+	nmain := len(blocks)
+	if hx.CasesPath("DirectiveOrderTwins") != "" { // the second pool (more same-directive lines)
+		hx.EachCase(t, "DirectiveOrderTwins", load)
+	}
+	res.AddExtra("blocks_from_tlc_twins_pool", len(blocks)-nmain)
 	if len(c.battery) == 0 || len(canon) == 0 || len(blocks) == 0 {
 		res.Infra = "TLC output has no battery / canon / blocks"
 		return
@@ -1118,7 +1140,7 @@ func TestC09(t *testing.T) {
 		if k%211 == 7 && len(ords) > 0 {
 			rr := rand.New(rand.NewSource(1))
 			res.Sample(map[string]interface{}{"block": b.Block, "written_as": ords[0],
-				"casketfile": casketfile(ords[0], &fixture{root: "ROOT", backend: "BACKEND"}, 0, "ACCESSLOG", "ERRLOG", rr),
+				"casketfile":               casketfile(ords[0], &fixture{root: "ROOT", backend: "BACKEND"}, 0, "ACCESSLOG", "ERRLOG", rr),
 				"predicted_first_requests": b.Exp[:3]})
 		}
 	}
